@@ -71,6 +71,9 @@ def make_farmer(x, sc, D):
     if kind == "runner":
         return r, fn
     if kind == "harvester":
+        if sc.get("engine") == "joblib":
+            return x.Harvester(r, data_name=os.path.join(D, "full.dmp"),
+                               engine="joblib"), fn
         return x.Harvester(r, data_name=os.path.join(D, "full.h5")), fn
     return x.Sampler(r, data_name=os.path.join(D, "samples.pkl"),
                      default_combos={"a": list(range(sc["N"])),
@@ -90,10 +93,13 @@ def new_crop(x, sc, D, autoload=True):
     return cropping.Crop(farmer=farmer, autoload=autoload, **kw)
 
 
-def sow(x, sc, D, crop=None):
+def sow(x, sc, D, crop=None, again=0):
     crop = crop or new_crop(x, sc, D)
     if sc["farmer"] == "sampler":
-        np.random.seed(sc["seed"])
+        # (a later sow - the victim's in phase 're-sow', the recovery's -
+        # draws other random samples than the one before, as a new process
+        # would)
+        np.random.seed(sc["seed"] + 7919 * again)
         crop.sow_samples(sc["N"], verbosity=0)
     else:
         crop.sow_combos(combos_of(sc), shuffle=sc.get("shuffle", False),
@@ -129,7 +135,7 @@ def setup(x, sc, D):
 def victim(x, sc, D):
     phase = sc["phase"]
     if phase in ("sow", "resow"):
-        sow(x, sc, D)
+        sow(x, sc, D)      # (the same work again)
         return
     crop = x.Crop(name="c10", parent_dir=D)
     B = crop.num_batches
@@ -175,7 +181,7 @@ def recover(x, sc, D):
             crop = new_crop(x, sc, D)
         except Exception:
             crop = new_crop(x, sc, D, autoload=False)
-        crop = sow(x, sc, D, crop)
+        crop = sow(x, sc, D, crop, again=2)
     crop = x.Crop(name="c10", parent_dir=D)
     crop.check_bad()
     crop.grow_missing()
@@ -333,11 +339,13 @@ def check_store(x, sc, D, ctx, tag, need_new):
     if sc.get("no_pre") and not need_new:
         return      # first ever sync: there is no earlier data to survive
     if kind == "harvester":
-        path = os.path.join(D, "full.h5")
+        path = os.path.join(D, "full.dmp" if sc.get("engine") == "joblib"
+                            else "full.h5")
+        eng = {"engine": "joblib"} if sc.get("engine") == "joblib" else {}
         require(os.path.exists(path), "harvester-file-lost",
                 f"{tag}: the harvester's file is gone")
         try:
-            ds = x.load_ds(path)
+            ds = x.load_ds(path, **eng)
         except Exception as e:
             core.violated("harvester-file-corrupt",
                           f"{tag}: the harvester's file cannot be loaded: "
@@ -499,6 +507,11 @@ def scenarios(tier, seed):
     phases = ["sow", "resow", "grow_crop", "grow_missing", "grow_fn", "reap"]
     for farmer in ("raw", "runner", "harvester", "sampler"):
         for phase in phases:
+            if farmer == "sampler" and phase == "resow":
+                # sowing samples again over existing results is not a crash
+                # matter (new random samples never fit old results) and the
+                # property speaks of sow_combos
+                continue
             reps = 3 if tier == "quick" else 30
             for r in range(reps):
                 B = rng.randint(2, 4 if tier == "quick" else 5)
@@ -516,6 +529,8 @@ def scenarios(tier, seed):
                     # the crop's reap is the first thing ever written to the
                     # farmer's data file
                     sc["no_pre"] = True
+                if farmer == "harvester" and r % 3 == 1:
+                    sc["engine"] = "joblib"
                 out.append(sc)
     return out
 
